@@ -396,7 +396,7 @@ def impl_err(case):
 def impl_pop(case):
     """a circuit with a PopulationTemplate and a Connectivity: to_yaml, from_yaml, vector field at the default state.
     Also the vector field of the `collapsed` circuit (the population's base node as ONE plain node, no connections): that is
-    what from_circuit writes today (finding C15-populations-not-written)"""
+    what from_circuit wrote before fix D116; since then to_yaml raises PyRatesException for such a circuit"""
     import numpy as np, io, contextlib, copy
     import pyr
     from pyrates.frontend import CircuitTemplate, NodeTemplate, OperatorTemplate
@@ -1251,16 +1251,18 @@ def check(ctx):
         expected = ok if sw.get("fixed_numpy") else o.get("dump_error") == "RepresenterError"
         if not expected:
             bad_impl.append(i)
-    # ---- populations / connections (not written by from_circuit: open finding, class guarded by `no_populations`)
+    # ---- populations / connections: no YAML representation; since D116 to_yaml refuses them (Yaml.dump_populations)
     for i, c in enumerate(cases):
         if c["kind"] != "pop" or i in crashed:
             continue
         o = outs[i]
-        if o.get("vf1") != o["vf0"]:
+        refused = o.get("dump_error") == "PyRatesException"
+        # Spec: refused loudly, or the same dynamics after the round trip — never a silently different circuit
+        if not (refused or ("dump_error" not in o and o.get("vf1") == o["vf0"])):
             bad_spec.append(i)
-            gv.setdefault(i, []).append("no_populations")
-        # mechanism: the population's base node is written as one plain node, the connections are not written at all
-        if "dump_error" in o or o.get("vf1") != o["vf_collapsed"]:
+        # mechanism: refusal (repaired) / the population's base node written as one plain node, no connections (before D116)
+        expected = refused if sw.get("fixed_populations_refused") else ("dump_error" not in o and o.get("vf1") == o["vf_collapsed"])
+        if not expected:
             bad_impl.append(i)
     # ---- loud failures
     for i, c in enumerate(cases):
@@ -1326,8 +1328,6 @@ def check(ctx):
             return r != py_words_sided(w["eq"], w["term"], w["rep"], w["rhs"], w["lhs"])
         if w["kind"] == "reuse":
             return r["edit_after"] != w["edit"] or any(d != r["derived"][0] for d in r["derived"])
-        if w["kind"] == "pop":
-            return r.get("vf1") != r["vf0"]
         if w["kind"] == "npy":
             return "dump_error" in r or r.get("vf1") != r["vf0"]
         return not yaml_spec_ok(r)
